@@ -74,8 +74,13 @@ def setup_environment() -> str:
     os.environ["PYTHONDONTWRITEBYTECODE"] = "1"
     os.environ["OSU_VERIF"] = "1"
     sys.dont_write_bytecode = True
-    if SRC not in sys.path:
-        sys.path.insert(0, SRC)
+    if SRC in sys.path:
+        sys.path.remove(SRC)
+    sys.path.insert(0, SRC)
+    if os.path.realpath(SRC) != "/repo/src":
+        # a scratch worktree is under test (VERIF_REPO): the library consists of namespace
+        # packages, so the editable install's /repo/src must not contribute portions
+        sys.path[:] = [p for p in sys.path if os.path.realpath(p or ".") != "/repo/src"]
     if VERIF not in sys.path:
         sys.path.insert(0, VERIF)
     return th
